@@ -8,7 +8,7 @@ open IrVerif.Passes
 #print axioms C05_clear_meta
 #print axioms C05_name_fix
 #print axioms C05_lift_const
-#print axioms C05_dedup_partial
+#print axioms C05_dedup
 #print axioms C05_output_fix
 #print axioms C05_compose
 #print axioms C05_lift_sub_inits
